@@ -110,15 +110,86 @@ Proof. exact InvQ_reachable. Qed.
 (* the scope "shrunk = false" in terms of the history: it is left exactly by a refresh that drops an endpoint which
    has an adapter at that moment *)
 Theorem scope_left_only_by_dropping_refresh : forall ls s0 s, run s0 ls = Some s -> shrunk s0 = false -> shrunk s = true ->
-  exists pre r post s1 e ai, ls = pre ++ Refresh r :: post /\ run s0 pre = Some s1 /\
-    lookup e (att s1) = Some ai /\ ~ In e r.
+  exists pre r i post s1 e ai, ls = pre ++ Refresh r i :: post /\ run s0 pre = Some s1 /\
+    lookup e (att s1) = Some ai /\ ~ In e r /\ ~ In e i.
 Proof.
   induction ls as [| l ls IH]; simpl; intros s0 s Hr H0 H1.
   - inversion Hr; subst. congruence.
   - destruct (step s0 l) as [s1 |] eqn:Hs; [| discriminate].
     destruct (shrunk s1) eqn:Hsh.
-    + destruct (shrunk_only_by_dropping_refresh _ _ _ Hs H0 Hsh) as (r & e & ai & -> & Hl & Hn).
-      exists [], r, ls, s0, e, ai. simpl. auto.
-    + destruct (IH s1 s Hr Hsh H1) as (pre & r & post & s2 & e & ai & -> & Hp & Hl & Hn).
-      exists (l :: pre), r, post, s2, e, ai. simpl. rewrite Hs. auto.
+    + destruct (shrunk_only_by_dropping_refresh _ _ _ Hs H0 Hsh) as (r & i & e & ai & -> & Hl & Hn).
+      exists [], r, i, ls, s0, e, ai. simpl. auto.
+    + destruct (IH s1 s Hr Hsh H1) as (pre & r & i & post & s2 & e & ai & -> & Hp & Hl & Hn).
+      exists (l :: pre), r, i, post, s2, e, ai. simpl. rewrite Hs. auto.
+Qed.
+
+(* ================= slow endpoints: a reply that arrives after its caller's deadline ================= *)
+Theorem late_reply_no_effect : forall s ai s', step s (Late ai) = Some s' -> s' = s.
+Proof. intros s ai s' H. simpl in H. destruct (get ai s); inversion H; reflexivity. Qed.
+
+Definition is_late (l : label) : bool := match l with Late _ => true | _ => false end.
+
+Lemma fold_skip_late : forall (A : Type) (f : A -> label -> A), (forall acc aj, f acc (Late aj) = acc) ->
+  forall ls acc, fold_left f (filter (fun l => negb (is_late l)) ls) acc = fold_left f ls acc.
+Proof.
+  intros A f Hf ls. induction ls as [| l ls IH]; simpl; intros acc; [reflexivity |].
+  destruct l; simpl; try apply IH. rewrite Hf. apply IH.
+Qed.
+
+(* the property's history quantities do not see late replies: a call that timed out stays a failed call, the streak is
+   not reset and the time of the last answered call does not move, wherever late replies are interleaved *)
+Theorem late_replies_do_not_count : forall ai ls,
+  let ls' := filter (fun l => negb (is_late l)) ls in
+  fails_since ai ls' = fails_since ai ls /\ streak ai ls' = streak ai ls /\ last_ok ai ls' = last_ok ai ls /\ clock ls' = clock ls.
+Proof.
+  intros ai ls ls'. unfold ls', fails_since, streak, last_ok, clock.
+  rewrite !fold_skip_late by reflexivity. auto.
+Qed.
+
+(* ================= registry changes while an endpoint is blocked ================= *)
+(* a refresh keeps the adapter (the health record) of every endpoint it lists, as active OR as inactive *)
+Theorem refresh_keeps_listed : forall s l i s' e ai, step s (Refresh l i) = Some s' ->
+  lookup e (att s) = Some ai -> In e (l ++ i) -> lookup e (att s') = Some ai.
+Proof.
+  intros s l i s' e ai Hs Hl Hin. destruct (step_refresh _ _ _ _ Hs) as [-> | (_ & att' & rot & Hatt & _ & _ & _ & _ & Ha & _)]; [exact Hl |].
+  rewrite Ha, Hatt. rewrite lookup_filter_in; [exact Hl | apply memN_In; exact Hin].
+Qed.
+
+Lemma run_shrunk : forall ls s s', run s ls = Some s' -> shrunk s' = false -> shrunk s = false.
+Proof.
+  induction ls as [| l ls IH]; simpl; intros s s' Hr Hsh.
+  - inversion Hr; subst; exact Hsh.
+  - destruct (step s l) as [s1 |] eqn:Hs; [| discriminate]. eapply step_shrunk; [exact Hs |]. eapply IH; eauto.
+Qed.
+
+Lemma run_att_mono : forall ls s s' e ai, run s ls = Some s' -> shrunk s' = false ->
+  lookup e (att s) = Some ai -> lookup e (att s') = Some ai.
+Proof.
+  induction ls as [| l ls IH]; simpl; intros s s' e ai Hr Hsh Hl.
+  - inversion Hr; subst; exact Hl.
+  - destruct (step s l) as [s1 |] eqn:Hs; [| discriminate].
+    pose proof (run_shrunk _ _ _ Hr Hsh) as Hsh1.
+    eapply IH; [exact Hr | exact Hsh |]. eapply step_att_mono; eauto.
+Qed.
+
+Lemma reachable_run_from : forall ls s s', reachable s -> run s ls = Some s' -> reachable s'.
+Proof. intros ls s s' [l0 H0] Hr. exists (l0 ++ ls). rewrite run_app, H0. exact Hr. Qed.
+
+(* in scope (no refresh dropped an endpoint from BOTH lists while it had an adapter): a blocked endpoint is in no selector *)
+Theorem blocked_out_of_rotation : forall s e ai a, reachable s -> shrunk s = false ->
+  lookup e (att s) = Some ai -> get ai s = Some a -> ast a = false -> ~ In e (sel s).
+Proof. intros s e ai a Hr Hsh Hl Hg Hst. destruct (InvDE_reachable s Hr) as [_ [_ HE]]. eapply HE; eauto. Qed.
+
+(* ... and stays out, with its health record attached, through every in-scope history that contains no answered probe
+   of it - whatever the registry does with it meanwhile (active -> inactive -> active, other endpoints coming and going) *)
+Theorem blocked_stays_out_without_probe : forall ls s s' e ai a, reachable s -> run s ls = Some s' -> shrunk s' = false ->
+  lookup e (att s) = Some ai -> get ai s = Some a -> ast a = false -> memN ai (reinst s) = false ->
+  ~ In (Out ai true true) ls ->
+  lookup e (att s') = Some ai /\ (exists a', get ai s' = Some a' /\ ast a' = false) /\ ~ In e (sel s').
+Proof.
+  intros ls s s' e ai a Hre Hr Hsh Hl Hg Hst Hm Hno.
+  pose proof (run_att_mono ls s s' e ai Hr Hsh Hl) as Hl'.
+  destruct (stays_blocked ls s s' ai a Hr Hg Hst Hm Hno) as [a' [Hg' [Hst' _]]].
+  split; [exact Hl' |]. split; [eauto |].
+  eapply blocked_out_of_rotation; eauto. eapply reachable_run_from; eauto.
 Qed.
